@@ -5,7 +5,7 @@ import posixpath
 from msdparser import MSDParserError
 
 from .. import gen, models, ops
-from ..core import RunResult, HarnessError
+from ..core import RunResult, HarnessError, shash
 from ..facades import Facade
 from ..models import (LoadError, ref_detect, ref_encoding, ref_load, universal_newlines,
                       DEFAULT_ENCODINGS)
@@ -436,7 +436,7 @@ def check_c19(sc, res):
                     return
             res.note("dir", facade, cfg.get("listing"), len(sm), len(ssc), ign, kw_load["strict"],
                      cfg.get("encoding"), spelling,
-                     hash(tuple(e.lower().rpartition(".")[2] for e in tree.entries(d))) & 0xffff)
+                     shash(tuple(e.lower().rpartition(".")[2] for e in tree.entries(d))) & 0xffff)
         # ---------------- the pack
         parg = _spell(pack, spelling)
         want_dirs = set()
